@@ -13,11 +13,12 @@ from ..flow import Enumerator, RETURN, fmt
 from ..symx import Expander, TupleV
 from ..anf import R, Unsupported
 from .. import anf, fsm
-from .common import struct_ob, formula_ob, guard, last_return, U
+from .common import path_statements_all, dtype_hazard_obligations, struct_ob, formula_ob, guard, last_return, U
 from . import mcmc
 from ..report import AnalysisError
+from ..term import Resolver, pmatch, find_all, abstract, anf_of
 
-FLOORS = {"must-pass-through": 4, "slot-binding": 3, "hmc-posterior-args": 5, "hmc-reflect-order": 1,
+FLOORS = {"float-arithmetic": 1, "must-pass-through": 4, "slot-binding": 3, "hmc-posterior-args": 5, "hmc-reflect-order": 1,
           "fold-form": 8, "start-validated": 4, "limit-fsm": 1}
 UTIL = "inference/mcmc/utilities.py"
 
@@ -60,15 +61,16 @@ def run(prog, tier):
     c, aw = prog.method("EnsembleSampler", "__advance_walker")
     pcs = mcmc.posterior_calls(aw)
     ok, why = False, f"{len(pcs)} posterior calls"
-    if len(pcs) == 1 and isinstance(pcs[0].args[0], ast.Name):
-        y = pcs[0].args[0].id
-        d = mcmc.last_def(aw, y, pcs[0].lineno)
+    if len(pcs) == 1:
+        rz_ = Resolver(aw, prog, c.module, c)
+        pt = rz_.term(pcs[0].args[0], rz_.stmt_of(pcs[0]))
         stores = [n for n in ast.walk(aw) if isinstance(n, ast.Assign) and isinstance(n.targets[0], ast.Subscript)
                   and U(n.targets[0].value) == "self.walker_positions"]
-        ok = (d is not None and isinstance(d.value, ast.Call) and U(d.value.func).endswith("__proposal")
-              and isinstance(d.targets[0], ast.Tuple) and U(d.targets[0].elts[0]) == y
-              and len(stores) == 1 and U(stores[0].value) == y)
-        why = f"posterior({y}); {y} defined by `{U(d) if d else None}`; stored `{[U(s) for s in stores]}`"
+        st_terms = [rz_.term(n.value, n) for n in stores]
+        # the evaluated point is element 0 of what __proposal returned, and the stored point is that same term
+        okp = any(pmatch(pt, pat) is not None for pat in ("self.__proposal(_i)[0]", "self._EnsembleSampler__proposal(_i)[0]"))
+        ok = okp and len(stores) == 1 and U(st_terms[0]) == U(pt)
+        why = f"posterior evaluated at `{U(pt)[:120]}`; stored `{[str(U(t))[:120] for t in st_terms]}`"
     obs.append(struct_ob("must-pass-through", qual(c, aw), ok,
                          "the walker must evaluate and store the very point __proposal returned: " + why, rel, aw.lineno))
 
@@ -94,6 +96,8 @@ def run(prog, tier):
     # ---------------------------------------------------------------- limit-fsm
     ob, extra = _limit_fsm(prog)
     obs.append(ob)
+
+    obs.extend(dtype_hazard_obligations(prog, "float-arithmetic", ['inference/mcmc/utilities.py']))
 
     meta = {
         "explanation": "Def-use must-pass-through: every posterior argument and stored point of the bounded samplers resolves to "
@@ -130,19 +134,26 @@ def _slot_binding(prog, cname, slot, bounded, free):
     ci = prog.cls(cname)
     c, init = prog.method(cname, "__init__")
     rel = c.module.relpath
-    # if bounds is None: slot = free ; else: slot = bounded
-    ok, why = False, "no `if bounds is None` switch in the constructor"
-    for st in ast.walk(init):
-        if isinstance(st, ast.If) and U(st.test) == "bounds is None":
-            def slot_assign(block):
-                return [U(s.value) for s in block if isinstance(s, ast.Assign)
-                        and U(s.targets[0]) == f"self.{slot}"]
-            a, b = slot_assign(st.body), slot_assign(st.orelse)
-            bounds_set = [U(s.value) for s in ast.walk(ast.Module(body=st.orelse, type_ignores=[]))
-                          if isinstance(s, ast.Assign) and U(s.targets[0]) == "self.bounds"]
-            ok = a == [free] and b == [bounded] and len(bounds_set) >= 1 and all(
-                v == "bounds" or v.startswith("Bounds(") for v in bounds_set)
-            why = f"unbounded arm: {a}; bounded arm: {b}; self.bounds <- {bounds_set}"
+    # on every constructor path: bounds is None -> slot = free ; bounds given -> slot = bounded and self.bounds is a Bounds
+    bpar = "bounds"
+    rz_ = Resolver(init, prog, c.module, c)
+
+    def slot_values(assume, target):
+        return [str(U(rz_.term(s_.value, s_))) for s_ in path_statements_all(init.body, assume)
+                if isinstance(s_, ast.Assign) and U(s_.targets[0]) == target]
+    a = slot_values({bpar: True}, f"self.{slot}")
+    b = slot_values({bpar: False}, f"self.{slot}")
+    bounds_set = slot_values({bpar: False}, "self.bounds")
+
+    def is_bounds_value(v):
+        try:
+            t_ = ast.parse(v, mode="eval").body
+        except SyntaxError:
+            return False
+        parts = [t_.body, t_.orelse] if isinstance(t_, ast.IfExp) else [t_]
+        return all(U(x) == bpar or (isinstance(x, ast.Call) and U(x.func) == "Bounds") for x in parts)
+    ok = a == [free] and b == [bounded] and len(bounds_set) >= 1 and all(is_bounds_value(v) for v in bounds_set)
+    why = f"unbounded path: {a}; bounded path: {b}; self.bounds <- {[v[:80] for v in bounds_set]}"
     # the free hook is the identity
     fname = free.split(".")[-1]
     fc, ffn = prog.find_method(ci, fname)
@@ -152,7 +163,7 @@ def _slot_binding(prog, cname, slot, bounded, free):
         why += f"; pass_through is identity: {okf}"
     # no other assignment of the slot anywhere
     sites = prog.self_assignments(ci, slot)
-    ok = ok and len(sites) == 2
+    ok = ok and 1 <= len(sites) <= 2
     return struct_ob("slot-binding", qual(c, init) + f"[{slot}]", ok,
                      f"`self.{slot}` must be {bounded} exactly when bounds are given: {why}; assignment sites: {len(sites)}",
                      rel, init.lineno)
@@ -315,7 +326,11 @@ def _fold_forms(prog):
         par = [a for a in pos.all_atoms() if a[0] == "fn" and a[1] == "mod"]
         construct = qual(bc, fn)
         if not dm or len(par) != 1:
-            out.append(struct_ob("fold-form", construct, False, f"fold is not built from divmod and a parity: {pos}", UTIL, fn.lineno))
+            # decided on the expanded value of the method, not on its spelling: a formula-tier obligation
+            out.append(struct_ob("fold-form", construct, False,
+                                 f"the fold must be built from an exact divmod(theta - lower, width) and its quotient's parity (a hand-written "
+                                 f"floor / multiply / subtract remainder carries a rounding error that grows with the overshoot): {pos}",
+                                 UTIL, fn.lineno, tier="F"))
             continue
         args = anf.REG.get(dm[0][2])
         ok_args = args[0].eq(theta - lower) and args[1].eq(upper - lower)
@@ -356,12 +371,14 @@ def _fold_forms(prog):
         out.append(struct_ob("fold-form", qual(pc, fn), False, "no `if n == 0` parity switch", rel, fn.lineno))
         return out
     sw = ifs[0]
-    has_switch = any(isinstance(n, ast.IfExp) for n in ast.walk(fn))
+    def is_nn_switch(n):
+        return isinstance(n, (ast.IfExp, ast.If)) and "_non_negative" in U(n.test) and n is not sw
+    has_switch = any(is_nn_switch(n) for n in ast.walk(fn))
     cases = [("orelse", "non_negative off"), ("body", "non_negative on")] if has_switch else [("orelse", "")]
     for case, label in cases:
         ex = Expander(prog, pc.module, pc)
         ex.opaque_self_attrs = {"lower", "upper", "width", "samples", "sigma", "rng", "_non_negative", "try_count", "max_tries"}
-        ex.on_if = lambda node, env, case=case: case if isinstance(node, ast.IfExp) else "skip"
+        ex.on_if = lambda node, env, case=case: case if is_nn_switch(node) else "skip"
         env = {}
         guard(lambda: ex.run_until(fn.body, env, sw))
         nval = guard(lambda: ex.eval(sw.test.left, env))
@@ -410,20 +427,31 @@ def _start_validated(prog):
     for cname, stored in (("PcaChain", "self.get_last()"), ("HamiltonianChain", "start"), ("EnsembleSampler", "v")):
         c, init = prog.method(cname, "__init__")
         rel = c.module.relpath
-        ok, why = False, "no validate_start_point call on the bounded arm"
-        for st in ast.walk(init):
-            if isinstance(st, ast.If) and U(st.test) == "bounds is None":
-                calls = [n for n in ast.walk(ast.Module(body=st.orelse, type_ignores=[])) if isinstance(n, ast.Call)
-                         and U(n.func) == "self.bounds.validate_start_point"]
-                if len(calls) == 1:
-                    a = calls[0].args[0] if calls[0].args else next((k.value for k in calls[0].keywords if k.arg == "start"), None)
-                    ok = a is not None and U(a) == stored
-                    why = f"validates `{U(a) if a is not None else None}` (stored start is `{stored}`)"
-                    if cname == "EnsembleSampler":
-                        loops = [l for l in ast.walk(ast.Module(body=st.orelse, type_ignores=[])) if isinstance(l, ast.For)
-                                 and any(x is calls[0] for x in ast.walk(l))]
-                        ok = ok and len(loops) == 1 and U(loops[0].iter) == "self.walker_positions" \
-                            and U(loops[0].target) == "v"
+        ok, why = False, "no validate_start_point call on the bounded path"
+        rz_ = Resolver(init, prog, c.module, c)
+        # calls reachable when bounds are given and not reachable when they are not
+        def calls_under(assume):
+            found = []
+            for s_ in path_statements_all(init.body, assume):
+                for n in ast.walk(s_):
+                    if isinstance(n, ast.Call) and U(n.func) == "self.bounds.validate_start_point":
+                        found.append(n)
+            return found
+        calls = calls_under({"bounds": False})
+        stray = calls_under({"bounds": True})
+        if len(calls) == 1 and not stray:
+            call_ = rz_.norm_call(calls[0])
+            a = call_.args[0] if call_.args else next((k.value for k in call_.keywords if k.arg == "start"), None)
+            at_ = rz_.stmt_of(calls[0])
+            if cname == "EnsembleSampler":
+                loops = [l for l in ast.walk(init) if isinstance(l, ast.For) and any(x is calls[0] for x in ast.walk(l))]
+                ok = (a is not None and len(loops) == 1 and U(rz_.term(loops[0].iter, loops[0])) == "self.walker_positions"
+                      and isinstance(a, ast.Name) and U(loops[0].target) == a.id)
+                why = f"validates `{U(a) if a is not None else None}` for each row of `{U(loops[0].iter) if loops else None}`"
+            else:
+                t_ = rz_.term(a, at_) if a is not None else None
+                ok = t_ is not None and (U(t_) == stored or U(a) == stored)
+                why = f"validates `{U(t_) if t_ is not None else None}` (stored start is `{stored}`)"
         out.append(struct_ob("start-validated", qual(c, init), ok,
                              "with bounds and a start the constructor must validate the stored start: " + why, rel, init.lineno))
     bc = prog.cls("Bounds")
